@@ -6,6 +6,7 @@ package main
 
 import (
 	"go/token"
+	"os"
 	"sync"
 
 	"golang.org/x/tools/go/ssa"
@@ -192,6 +193,9 @@ func (e *Engine) execPure(st *State, fr *Frame, in ssa.Instruction, budget *int)
 			if _, redirected := e.redirects[callee.String()]; redirected {
 				callee = e.redirects[callee.String()]
 			}
+			if os.Getenv("VERIF_NO_SPECCALL") != "" {
+				return false
+			}
 			r := e.specCall(st, callee, args, bind, budget)
 			if r != nil {
 				e.set(fr, x, r)
@@ -342,7 +346,7 @@ func (e *Engine) specRegionFrom(st *State, fr *Frame, blk, pred, join *ssa.Basic
 			if j := ip[blk.Index]; j >= 0 {
 				inner = blk.Parent().Blocks[j]
 			}
-			if inner != nil && inner != join {
+			if inner != nil && inner != join && os.Getenv("VERIF_NO_INNER") == "" {
 				// merge at the inner join, then continue from there
 				var arr []arrival
 				e.specRegionFrom(st, &nf, blk.Succs[0], blk, inner, c, budget, &arr, false)
@@ -459,6 +463,9 @@ func (e *Engine) tryIfConvert(st *State, fr *Frame, c *Term) (done bool) {
 		// speculation may only have added facts implied by the old pc (single-feasible bindings)
 	}
 	if !ok || len(arr) == 0 {
+		return false
+	}
+	if join == nil && os.Getenv("VERIF_NO_RETMERGE") != "" {
 		return false
 	}
 	if join == nil {
